@@ -283,7 +283,9 @@ pub struct CaseResult {
 pub fn run_case(seed: u64, case: &Case) -> CaseResult {
     let mut rng = Rng::new(seed);
     let (cfg_a, cfg_b) = cfgs(case.sym);
-    let netcfg = NetCfg { capacity: 0, delivery: case.delivery, drop_visible: case.drop_visible, fault: case.fault, ..NetCfg::default() };
+    // every other fault position runs over a transport that buffers until flush
+    let buffered = case.fault.map(|f| f.at % 2 == 1).unwrap_or(false);
+    let netcfg = NetCfg { capacity: 0, delivery: case.delivery, drop_visible: case.drop_visible, fault: case.fault, flush_required: buffered, ..NetCfg::default() };
     let replay = json!({"seed": seed, "fault": case.fault.map(|f| format!("{:?} at frame {} of {}", f.kind, f.at, f.dir.name())),
         "drop_visible": case.drop_visible, "delivery": format!("{:?}", case.delivery), "h1_pct": case.h1, "symmetric_timeouts": case.sym,
         "orderly_end": case.orderly_end});
@@ -446,14 +448,14 @@ pub fn enumerate(frames: (usize, usize), delivery: Delivery, h1: u64, orderly_en
 }
 
 /// Idle test: a healthy connection that is idle for 1000 x timeout must stay up.
-pub fn idle_test(seed: u64, sym: bool) -> RunOut {
+pub fn idle_test(seed: u64, sym: bool, buffered: bool) -> RunOut {
     let mut rng = Rng::new(seed);
     let (cfg_a, cfg_b) = cfgs(sym);
     let mut out = RunOut::default();
-    let replay = json!({"seed": seed, "idle_test": true, "symmetric_timeouts": sym});
+    let replay = json!({"seed": seed, "idle_test": true, "symmetric_timeouts": sym, "buffered_transport": buffered});
     install_h1(rng.fork(1), 0, 0);
     let res: Result<(), String> = run_virtual(seed, async {
-        let Conn { net, a, mut b, sched: _s } = connect_pair(cfg_a, cfg_b, NetCfg { frame_budget: usize::MAX, keep_trace: false, ..Default::default() }, &mut rng).await?;
+        let Conn { net, a, mut b, sched: _s } = connect_pair(cfg_a, cfg_b, NetCfg { frame_budget: usize::MAX, keep_trace: false, flush_required: buffered, ..Default::default() }, &mut rng).await?;
         let ((mut tx, _rx), (_tx2, mut rx2)) = open_port(&a.client, &mut b.listener).await?;
         tokio::time::sleep(Duration::from_secs(1000 * T_B)).await;
         settle().await;
